@@ -34,6 +34,14 @@ class Ctx(object):
         self.work = os.path.join(VERIF, 'out', '%s.%d' % (pid, os.getpid()))
         shutil.rmtree(self.work, ignore_errors=True)
         os.makedirs(self.work)
+        # replay files of earlier runs of this check are stale
+        import glob
+        for f in glob.glob(os.path.join(VERIF, 'out', 'replays', '%s-*.json' % pid)):
+            if not replay or os.path.abspath(f) != os.path.abspath(replay):
+                try:
+                    os.unlink(f)
+                except OSError:
+                    pass
         self.failures = []
         self.notes = []
         self.drift = 0
